@@ -2,7 +2,8 @@
 import numpy as np
 from numpy.polynomial.legendre import leggauss
 
-RULES = {'A': (16, 14), 'B': (22, 20)}      # (Gauss points in the substituted time variable, points per space panel)
+RULES = {'A': (16, 14), 'B': (22, 20),      # (Gauss points in the substituted time variable, points per space panel)
+         'C': (40, 14), 'D': (45, 20)}      # second opinion for elements on which A and B disagree
 PANELS = [0.0, 0.04, 0.2, 0.5, 0.8, 0.96, 1.0]
 
 
@@ -50,10 +51,10 @@ def min_end_distance(X, xs):
     return float(np.min(d))
 
 
-def element_report(residual, elems, rule_pair=('A', 'B'), point_budget=None):
+def element_report(residual, elems, rule_pair=('A', 'B'), point_budget=None, cut_elems=None):
     """per element: (mean_A, abs_A, mean_B, abs_B) ; returns list or a string reason when the mesh is outside the
     documented precondition (a node within 1e-5 of an element end point) or above the point budget"""
-    t_cuts, x_cuts = mesh_cuts(elems)
+    t_cuts, x_cuts = mesh_cuts(cut_elems if cut_elems is not None else elems)
     plan = []
     total = 0
     for e in elems:
